@@ -106,7 +106,8 @@ def build(repo):
                           "loop invariant of optimize() assumed as precondition: `first` is an Instruction and `second` the next Instruction (established by code outside the two blocks)",
                           "that a removed flag-setting load is invisible IN CONTEXT (whether N/Z are consumed later), the multipeek look-ahead (modelled as arbitrary lines), the Dummy/iterator plumbing, the JMP-to-next-label rule and termination equivalence are NOT decided",
                           "protected compare instructions (CMP/CPX/CPY) may be removed by the compare-folding rule: outside C18's statement list",
-                          "the flags belief is required to be true only while the accumulator is known (it is consumed only then); PLP is excluded (never emitted)"])
+                          "the flags belief is required to be true only while the accumulator is known (it is consumed only then); PLP is excluded (never emitted)",
+                          "xfer-jump-forgets is demanded only while the JMP-to-next-label rule (scanned textually) does not itself reset the three registers; that a JMP passes through block B as `second` before it can be `first` of that rule is the loop structure, not verified"])
     f, types, cuts = common.asm_types(repo)
     gm = SourceFile(repo, "src/generate/mod.rs")
     fl = gm.item("enum", "FlagsState")
@@ -120,6 +121,14 @@ def build(repo):
     cuts += [a, b]
     r15(a)
     r15(b)
+    # The JMP-to-next-label rule removes the JMP and steps over the label WITHOUT the knowledge reset every other label crossing performs: what is
+    # known after a JMP therefore reaches a join point.  Unless the rule's own block resets the three registers, block B must forget them at JMP.
+    j = f.block(r"^\s*// Remove JMP to the following label", r"^\s*// Make sure second points also to an instruction", s0, cb0, desc="optimize(): 'Remove JMP to the following label' (scanned only)")
+    rule_resets = all(re.search(r"\b%s\s*=\s*None\s*;" % r, j.text) for r in ("accumulator", "x_register", "y_register"))
+    if rule_resets:
+        jmp_clause = ""
+    else:
+        jmp_clause = "        ((!remove_second && !remove_both) && ins(second).mnemonic == AsmMnemonic::JMP ==> r.0 is None && r.1 is None && r.2 is None), //@ C02:xfer-jump-forgets\n"
     b.sub(r"\biter\.peek\(\)", "iter.peek()", "R8 iter is the look-ahead shim")
     pair = """
 // R8: block A of optimize(), verbatim; free variables became parameters / results
@@ -162,7 +171,7 @@ pub fn knowledge_transfer(second: Option<&AsmLine>, iter: &mut Peek, accumulator
         ((!remove_second && !remove_both) && writes_y(ins(second).mnemonic) ==> !(r.0 is Some && ew_idx(r.0->Some_0@, 'Y')) && !(r.1 is Some && ew_idx(r.1->Some_0@, 'Y'))), //@ C02:xfer-y-index-stale
         ((!remove_second && !remove_both) && writes_mem(ins(second).mnemonic, ins(second).dasm_operand@) && !sw_hash(ins(second).dasm_operand@) ==> (ins(second).mnemonic == AsmMnemonic::STA || !known(r.0, ins(second).dasm_operand@)) && (ins(second).mnemonic == AsmMnemonic::STX || !known(r.1, ins(second).dasm_operand@)) && (ins(second).mnemonic == AsmMnemonic::STY || !known(r.2, ins(second).dasm_operand@))), //@ C02:xfer-mem-written
         ((!remove_second && !remove_both) && r.3 == FlagsState::A && r.0 is Some ==> nz_is_a(ins(second).mnemonic, ins(second).dasm_operand@) || (flags == FlagsState::A && nz_kept(ins(second).mnemonic))), //@ C02:xfer-flags-a
-        ((!remove_second && !remove_both) && r.4 ==> !ins(second).protected), //@ C18,C02:xfer-reload-unprotected
+%(jmp_clause)s        ((!remove_second && !remove_both) && r.4 ==> !ins(second).protected), //@ C18,C02:xfer-reload-unprotected
         ((!remove_second && !remove_both) && r.4 ==> ((ins(second).mnemonic == AsmMnemonic::LDA && known(accumulator, ins(second).dasm_operand@)) || (ins(second).mnemonic == AsmMnemonic::LDX && known(x_register, ins(second).dasm_operand@)) || (ins(second).mnemonic == AsmMnemonic::LDY && known(y_register, ins(second).dasm_operand@)))), //@ C02:xfer-reload-redundant
 {
     let mut accumulator = accumulator;
@@ -170,12 +179,13 @@ pub fn knowledge_transfer(second: Option<&AsmLine>, iter: &mut Peek, accumulator
     let mut y_register = y_register;
     let mut flags = flags;
     let mut remove_second = remove_second;
-%s
+%(blk)s
     (accumulator, x_register, y_register, flags, remove_second)
 }
-""" % b.text
+""" % {"blk": b.text, "jmp_clause": jmp_clause}
     text = common.PRELUDE + common.header_comment(NAME, cuts) + "verus! {\n" + types + fl.text + "\n" + SPECS + pair + xfer + common.CANARY + "\n} // verus!\n"
     u.text[None] = text
+    u.optional = ["O-C02-xfer-jump-forgets"]      # demanded only while the JMP-to-next-label rule does not reset the registers itself
     u.rewrites = common.collect_rewrites(cuts)
     u.dropped = ["everything of optimize() outside the two blocks: the multipeek iterator and `first`/`second` advancing, the Dummy writes, the JMP-to-next-label rule, the label/`remove_both` knowledge resets",
                  "R8: `first`/`second` are Option<&mut AsmLine> in optimize(); the blocks only read them, so the parameters are Option<&AsmLine>", "R15 string predicate shims"]
